@@ -66,7 +66,10 @@ def run(prog, chk):
     for f in R.ev_ensure_active():
         g = prog.cfg(f)
         conds = [n for n in g.nodes if n.kind == 'cond' and any(x['k'] == 'member' and x['name'] == flag for x in SX.walk(n.e))]
-        idx = _guard_param_index(f, [c.e for c in conds], flag)
+        # (the element may be reached through a reference local: `const QubitInfo& info = m_qubits[index]; if (!info.measured) …`)
+        from ..kcanon import Canon
+        _cn = Canon(prog, f)
+        idx = _guard_param_index(f, [_cn.expand(SX.strip(c.e)) for c in conds], flag)
         if idx is None:
             raise AnalysisBroken('ensure-active %s: measured test does not subscript by a parameter' % f.name)
         # the test is on every normal path, and its true edge only leads to a Runtime throw
